@@ -449,14 +449,25 @@ impl Worker {
         );
 
         let write_offset = writer_set.writer.write_offset();
+        let compression = writer_set.compression;
         let events_size = events
             .iter()
             .map(|event| {
-                EVENT_HEADER_SIZE
+                let size = EVENT_HEADER_SIZE
                     + event.stream_id.len()
                     + event.event_name.len()
                     + event.metadata.len()
-                    + event.payload.len()
+                    + event.payload.len();
+                if compression {
+                    // For incompressible data the stored record is larger than the raw one (zstd
+                    // frame overhead plus the 4-byte original-length prefix). Reserve the worst
+                    // case (ZSTD_compressBound) so the rollover decision below is made against a
+                    // size the record cannot exceed; otherwise the append fails with SegmentFull
+                    // on every retry when the free space lies between the two sizes.
+                    size + 4 + (size >> 8) + 64
+                } else {
+                    size
+                }
             })
             .sum::<usize>()
             + if get_uuid_flag(&transaction_id) {
